@@ -1,19 +1,27 @@
 #!/bin/sh
 # usage: verify_seed.sh <worktree>  — re-verify a seeded change: suite passes with it, demo fails with it / passes without
+# (no `git stash`: the stash list is shared by all worktrees of a repository, parallel runs would pop each other's entries)
 W="$1"; cd "$W" || exit 2
 export CARGO_NET_OFFLINE=true CARGO_TARGET_DIR="$W/target"
 LOG="$W/verify.log"; : > "$LOG"
+CUR="$W/.verify-cur.diff"
 echo "== diff vs patch" >> "$LOG"
-git diff -- crates > /tmp/cur.$$.diff; if diff -q /tmp/cur.$$.diff seed-out/patch.diff >/dev/null; then echo "patch applied: yes" >> "$LOG"; else echo "patch applied: DIFFERS" >> "$LOG"; fi; rm -f /tmp/cur.$$.diff
+git diff -- crates > "$CUR"
+if diff -q "$CUR" seed-out/patch.diff >/dev/null; then echo "patch applied: yes" >> "$LOG"; else
+  echo "patch applied: DIFFERS — resetting the worktree to seed-out/patch.diff" >> "$LOG"
+  git checkout -- crates && git apply seed-out/patch.diff || { echo "cannot apply seed-out/patch.diff" >> "$LOG"; exit 3; }
+  git diff -- crates > "$CUR"
+fi
+git clean -fdq -- crates   # demo tests left behind by an earlier run must not be part of the suite
 echo "== suite with change" >> "$LOG"
 cargo test --workspace --offline 2>&1 | grep -E "^test result|FAILED|failed|^error" >> "$LOG"
 echo "== demo with change" >> "$LOG"
 cargo build --offline -p ast-grep >/dev/null 2>&1
 ( bash seed-out/demo.sh ) >> "$LOG" 2>&1; echo "demo exit with change: $?" >> "$LOG"
-git stash -q -- crates
+git checkout -- crates
 echo "== demo without change" >> "$LOG"
 cargo build --offline -p ast-grep >/dev/null 2>&1
 ( bash seed-out/demo.sh ) >> "$LOG" 2>&1; echo "demo exit without change: $?" >> "$LOG"
-git stash pop -q
+git checkout -- crates; git apply "$CUR"; rm -f "$CUR"
 cargo build --offline -p ast-grep >/dev/null 2>&1
 echo "== done" >> "$LOG"
